@@ -309,10 +309,28 @@ def FThread.abs {σ : Type} (t : FThread σ) : Thread σ := { todo := t.todo, pe
 def FState.abs {σ ρ : Type} (st : FState σ ρ) : State σ ρ :=
   { shared := st.shared, threads := st.threads.map FThread.abs, log := st.log }
 
+/-- Number of fine-grained operations of one uncontended draw. -/
+def fineSteps (D : Discipline) : Nat :=
+  match D with
+  | .mutex => 4
+  | _ => 2
+
+/-- A serial schedule of the fine-grained system: whole draws, one thread at a time. -/
+def fexpand (D : Discipline) (order : List Nat) : List Nat :=
+  order.flatMap (fun i => List.replicate (fineSteps D) i)
+
 /-- Every fine-grained schedule is matched by a schedule of the one-step system. -/
 def Refines (D : Discipline) : Prop :=
   ∀ {σ ρ : Type} [DecidableEq σ] (g : Gen σ ρ) (seed : σ) (progs sched : List Nat),
     ∃ order : List Nat, (fexec D g (finit seed progs) sched).abs = exec D g (init seed progs) order
+
+/-- Serialisability of the fine-grained system: every schedule of micro-operations has a serial
+    schedule (whole draws back to back) giving every thread the same result stream. -/
+def FineSerializable (D : Discipline) : Prop :=
+  ∀ {σ ρ : Type} [DecidableEq σ] (g : Gen σ ρ) (seed : σ) (progs sched : List Nat),
+    ∃ order : List Nat, ∀ i,
+      results (fexec D g (finit seed progs) sched).abs i
+        = results (fexec D g (finit seed progs) (fexpand D order)).abs i
 
 /-! ### The generator of `rlib/rand/src/lcg.rs` + the cast in `gen_priority` -/
 
